@@ -23,7 +23,7 @@ ASSUMPTIONS = [
     "GeneratedCodeOrigin is a code origin for the purpose of '+' (it subclasses CodeOrigin)",
     "points with equal index but different line/column are inconsistent inputs and are not generated",
 ]
-MUST_SEE = ["grid_pairs", "grid_triples", "illformed_rejected", "hull_merges", "multi_results", "multi_operands", "sourceset_results", "get_raw_checked", "nested_range_pairs"]
+MUST_SEE = ["grid_pairs", "grid_triples", "illformed_rejected", "hull_merges", "multi_results", "multi_operands", "sourceset_results", "get_raw_checked", "nested_range_pairs", "equal_but_distinct_sources"]
 CONFIG = {
     "quick": {"shards": 16, "tuples": 1500, "watchdog_s": 300},
     "thorough": {"shards": 32, "tuples": 40000, "watchdog_s": 3000},
@@ -349,7 +349,12 @@ def origin_checks(ctx):
                 m = tuple(rng.choice([x for x in singles if x[0] != "no"]) for _ in range(rng.randint(2, 3)))
                 ops.append(("multi", m))
                 ctx.count("multi_operands")
-        objs = [O.build_origin(sp) if sp[0] == "multi" else built[sp] for sp in ops]
+        if rng.random() < 0.3:
+            # every operand carries its own, equal but distinct, source object
+            objs = [O.build_origin(sp, src=O.fresh_source) for sp in ops]
+            ctx.count("equal_but_distinct_sources")
+        else:
+            objs = [O.build_origin(sp) if sp[0] == "multi" else built[sp] for sp in ops]
         d = {"operands": ops}
         nonempty = sum(len(ref_members(s)) for s in ops)
         if nonempty >= 2:
